@@ -337,7 +337,8 @@ def run_fuzz(case):
                         # messages to user are arbitrary binary data (here: not UTF-8, longer than the reserved 'cfdp' prefix)
                         from spacepackets.cfdp.tlv import MessageToUserTlv
 
-                        req = PutRequest(w.dst_id, w.src_path, w.dst_req_path, None, None,
+                        md_only = rng.random() < 0.4  # (also as a metadata-only request)
+                        req = PutRequest(w.dst_id, None if md_only else w.src_path, None if md_only else w.dst_req_path, None, None,
                                          msgs_to_user=[MessageToUserTlv(bytes(rng.randrange(128, 256) for _ in range(rng.choice([5, 6, 40])))) for _ in range(rng.choice([1, 3]))])
                         obs["put_requests_with_binary_messages_to_user"] = obs.get("put_requests_with_binary_messages_to_user", 0) + 1
                     elif pk in ("long_source_name", "long_dest_name"):
